@@ -92,12 +92,16 @@ fn m_subs(prop: &'static str) -> Vec<(MSub, u32, u32, usize)> {
             (msub("C03", "c03-dag-st", MFocus::Dag, None), 40_000, 800_000, 16),
             (msub("C03", "c03-dag-mt", MFocus::Dag, Some(4)), 4000, 80_000, 4),
             (msub("C03", "c03-cyclic-st", MFocus::Cyclic, None), 10_000, 200_000, 16),
+            (msub("C03", "c03-wide-mt", MFocus::Wide, Some(4)), 150, 3000, 4),
         ],
         "C04" => vec![
             (msub("C04", "c04-dag-st", MFocus::Dag, None), 30_000, 600_000, 16),
             (msub("C04", "c04-dag-mt", MFocus::Dag, Some(4)), 5000, 100_000, 4),
             (msub("C04", "c04-hier-mt8", MFocus::Hier, Some(8)), 1000, 20_000, 2),
             (msub("C04", "c04-dag-mt16", MFocus::Dag, Some(16)), 300, 6000, 1),
+            (msub("C04", "c04-wide-st", MFocus::Wide, None), 300, 6000, 8),
+            (msub("C04", "c04-wide-mt", MFocus::Wide, Some(4)), 200, 4000, 4),
+            (msub("C04", "c04-wide-mt8", MFocus::Wide, Some(8)), 100, 2000, 2),
         ],
         "C05" => vec![
             (msub("C05", "c05-dag-st", MFocus::Dag, None), 20_000, 400_000, 16),
